@@ -573,7 +573,7 @@ func drawOpt(t *rapid.T, label string, furthest bool, allowApprox bool) optCase 
 	default:
 		o.LimKind = 2
 		o.LimRank = rapid.IntRange(0, 40).Draw(t, label+".rank")
-		o.LimUlps = rapid.IntRange(-1, 1).Draw(t, label+".ulps")
+		o.LimUlps = rapid.SampledFrom([]int{-6, -4, -3, -2, -1, -1, 0, 0, 0, 1, 1, 2, 3, 4, 6}).Draw(t, label+".ulps")
 	}
 	if allowApprox && rapid.IntRange(0, 2).Draw(t, label+".approx") == 0 {
 		if rapid.IntRange(0, 3).Draw(t, label+".ebig") == 0 {
